@@ -42,8 +42,14 @@ func (w *World) appendCheck(fid int) string {
 	if mf == nil {
 		return "ok"
 	}
-	durable := int64(0)
-	rootEnds := map[int64]bool{0: true}
+	return appendCheckLog(mf, 0)
+}
+
+// appendCheckLog evaluates C09's predicate on the complete call log of a file whose first
+// `durable0` bytes were already there (and end in a root record) when logging began.
+func appendCheckLog(mf *memfile.File, durable0 int64) string {
+	durable := durable0
+	rootEnds := map[int64]bool{0: true, durable0: true}
 	for i, e := range mf.Log {
 		switch e.Kind {
 		case memfile.Write:
@@ -149,12 +155,14 @@ func (w *World) iterOp(t []string) string {
 				exhausted = true
 			}
 		case 'C':
+			time.Sleep(300 * time.Microsecond) // let a producer that runs ahead of the consumer get as far as it can
 			it.Close()
 			out = append(out, "C")
 			exhausted = false
 		}
 	}
 	if !exhausted {
+		time.Sleep(300 * time.Microsecond)
 		it.Close()
 	}
 	out = append(out, "C")
